@@ -37,7 +37,7 @@ type Config struct {
 	// MaxFailed ends the exploration (Exhaustive=false) once that many
 	// executions ended in an oracle failure: the verdict is known.
 	MaxFailed int
-	Deadline time.Time
+	Deadline  time.Time
 }
 
 // Result counts are all measured.
@@ -109,6 +109,7 @@ func Explore(cfg Config) *Result {
 	res := &Result{Terminals: map[string]int{}, Exhaustive: true}
 	visited := map[string]struct{}{}
 	var stack []frame
+	firstFail := 0
 	for {
 		res.Executions++
 		runOne(&stack, visited, cfg, res)
@@ -119,7 +120,14 @@ func Explore(cfg Config) *Result {
 			break
 		}
 		stack[len(stack)-1].idx++
-		if (cfg.MaxExecs > 0 && res.Executions >= cfg.MaxExecs) || (cfg.MaxFailed > 0 && res.Failed >= cfg.MaxFailed) || (!cfg.Deadline.IsZero() && res.Executions%256 == 0 && time.Now().After(cfg.Deadline)) {
+		if res.Failed > 0 && firstFail == 0 {
+			firstFail = res.Executions
+		}
+		// once the verdict is known the search is cut short, by execution
+		// counts (deterministic): at most as long again as it took to find
+		// the first failure, or MaxFailed failing executions
+		if (cfg.MaxExecs > 0 && res.Executions >= cfg.MaxExecs) || (cfg.MaxFailed > 0 && res.Failed >= cfg.MaxFailed) ||
+			(cfg.MaxFailed > 0 && firstFail > 0 && res.Executions >= 2*firstFail+1000) || (!cfg.Deadline.IsZero() && res.Executions%256 == 0 && time.Now().After(cfg.Deadline)) {
 			res.Exhaustive = false
 			break
 		}
